@@ -410,6 +410,10 @@ impl Tracer {
             }
             if let Some(sys) = cur {
                 self.clients[c].after(&sys, ret);
+                if sys.nr == SYS_CLOSE {
+                    // a scheduled "the retry on this descriptor fails" ends with the descriptor
+                    self.short_then_err.remove(&(c, sys.args[0] as i32));
+                }
                 if granted {
                     if let Some(t) = self.clients[c].threads.get_mut(&tid) {
                         t.state = TState::Running;
